@@ -1,15 +1,19 @@
 #!/usr/bin/env python3
 """Copy confirmed sub-agent seeds from /tmp/seed into /verif/seeded/<PROP>-<N>/ (patch.diff, demo/, notes.md, meta.json)."""
-import json, os, shutil, glob, re
+import json, os, shutil, glob, re, sys
+ROOT = os.environ.get("SEEDROOT", "/tmp/seed")
+OFFSET = int(os.environ.get("SEED_OFFSET", "0"))
 V = os.path.dirname(os.path.dirname(os.path.abspath(__file__)))
-for cj in sorted(glob.glob("/tmp/seed/C*/out/[0-9]/confirm.json")):
+for cj in sorted(glob.glob(ROOT + "/C*/out/[0-9]/confirm.json")):
     c = json.load(open(cj))
     src = os.path.dirname(cj)
     if not c.get("confirmed"):
         print("skip (not confirmed on current HEAD):", src)
         continue
-    dst = os.path.join(V, "seeded", "%s-%d" % (c["property"], c["mutant"]))
+    dst = os.path.join(V, "seeded", "%s-%d" % (c["property"], c["mutant"] + OFFSET))
     if os.path.isdir(dst):
+        if os.environ.get("SEED_KEEP_EXISTING"):
+            continue
         shutil.rmtree(dst)
     os.makedirs(dst)
     shutil.copy(os.path.join(src, "patch.diff"), dst)
